@@ -1131,8 +1131,6 @@ contract(
             "all(composite.anchors[k].name in to_add for k in range(len(A0), len(composite.anchors)))",
         ],
         "mark_components.remove(component)": [_PRESENT.format(l="mark_components")],
-        # the guard + what `_get_anchor_data` may add (only names that extend `anchor_name`): stated where it happens, the loop step is then syntactic
-        "if not any((a.name.startswith(anchor_name) for a in composite.anchors)):": [_NO_OVERRIDE],
         # after the promotion of a mark to a base (or without it): every component in either list still has its base in the glyph set
         "if mark_components and (not base_components) and _is_ligature_mark(composite):": [_PRESENT.format(l="mark_components"), _PRESENT.format(l="base_components")],
     },
